@@ -4,9 +4,14 @@ Per module in app order: does the blocker's error reach ABCI? Only masterchef's 
 (x/masterchef/module.go); estaking, epochs, tier, leveragelp, perpetual, amm, stablestake, oracle drop or cannot produce one;
 epochs panics on a hook error and the burner hook panics on a burn error.
 For the masterchef end-blocker the chain of `return err` sites (x/masterchef/keeper/abci.go) with the condition under which
-each fires, over an explicit environment record. `fixed = false` is the code before 9e8da3f. Core-only.
+each fires, over an explicit environment record. `fixed = false` is the code before 9e8da3f. The Eden mint is modelled by
+its arithmetic (allocation per pool as a raw 10^18 decimal, `fixedMint = false` is the code before 932554d); the epochs
+begin-blocker and the estaking hook by their error propagation (`fixedHook = false`: before 7acf6c7); the protocol's fee
+split by its arithmetic and the params validation in front of it (`fixedValidation = false`: before f5b320c). Core-only.
 -/
 namespace Elys.Blocks
+
+def P : Int := 1000000000000000000
 
 structure Env where
   usdcEntry : Bool            -- assetprofile has the base currency entry
@@ -15,21 +20,56 @@ structure Env where
   conversionFails : Bool      -- some fee conversion swap errors (e.g. oracle price of the fee denom missing)
   bankSendFails : Bool        -- a module-to-module send of an amount the sender was just observed to hold fails
   edenPriceZero : Bool        -- GetEdenDenomPrice = 0 (it falls back to 1 · usdc price, so only a product rounding to 0)
-  mintFails : Bool            -- minting Eden through the commitment keeper fails
+  edenAllocs : List Int       -- the Eden allocation of this block for every pool with Eden rewards on (raw decimals, ≥ 0):
+                              -- min(share of the yearly amount per block, APR cap · TVL / blocks per year / Eden price) — ANY value
 deriving Repr, DecidableEq, Inhabited
 
 inductive Halt | noUsdc | conversion | revenueAddr | bankSend | blocksPerYear | edenPrice | mint
 deriving Repr, DecidableEq, Inhabited
 
-def endBlockOutcome (fixed : Bool) (e : Env) : Except Halt Unit :=
+/-- commitment MintCoins → bank MintCoins: `Coins.Validate` rejects a coin whose amount is not positive -/
+def mintCoins (amt : Int) : Except Halt Unit := if amt ≤ 0 then .error .mint else .ok ()
+
+/-- UpdateLPRewards, one pool: `if alloc.IsPositive() { MintCoins(alloc.TruncateInt()) }` before 932554d,
+`if alloc.TruncateInt().IsPositive() { … }` since -/
+def edenMint (fixedMint : Bool) (allocRaw : Int) : Except Halt Unit :=
+  let whole := allocRaw.tdiv P
+  if fixedMint then (if whole > 0 then mintCoins whole else .ok ())
+  else (if allocRaw > 0 then mintCoins whole else .ok ())
+
+def edenMints (fixedMint : Bool) : List Int → Except Halt Unit
+  | [] => .ok ()
+  | a :: as => match edenMint fixedMint a with
+    | .ok _ => edenMints fixedMint as
+    | .error h => .error h
+
+def endBlockOutcome (fixed : Bool) (e : Env) (fixedMint : Bool := true) : Except Halt Unit :=
   if !e.usdcEntry then .error .noUsdc
   else if e.conversionFails && !fixed then .error .conversion
   else if e.bankSendFails then .error .bankSend
   else if !e.revenueAddrValid then .error .revenueAddr
   else if !e.blocksPerYearNonzero then .error .blocksPerYear
   else if e.edenPriceZero then .error .edenPrice
-  else if e.mintFails then .error .mint
-  else .ok ()
+  else edenMints fixedMint e.edenAllocs
+
+/-! ### epochs begin-blocker and the estaking hook -/
+
+/-- x/epochs/keeper/abci.go: `err := k.RunHooksBeforeEpochStart(…); if err != nil { panic(err) }` over the hooks in order -/
+def epochStart (hooks : List (Except Unit Unit)) : Except Unit Unit :=
+  if hooks.any (fun h => match h with | .error _ => true | .ok _ => false) then .error () else .ok ()
+
+/-- x/estaking/keeper/hooks_epoch.go BeforeEpochStart on the provider-vesting epoch: the claim's outcome (error or recovered
+panic) was returned as it was before 7acf6c7; since then it is logged and the hook returns nil -/
+def estakingHook (fixedHook : Bool) (claim : Except Unit Unit) : Except Unit Unit := if fixedHook then .ok () else claim
+
+/-! ### the protocol's fee split -/
+
+/-- estaking params validation of ProviderStakingRewardsPortion (raw decimal): non-negative; since f5b320c also ≤ 1 -/
+def portionValid (fixedValidation : Bool) (p : Int) : Bool := 0 ≤ p && (!fixedValidation || p ≤ P)
+
+/-- what is left of `c` coins after the provider's portion `⌊c·p⌋` was taken (masterchef CollectPerpRevenue / CollectGasFees;
+a negative remainder panics in `sdk.Coins.Sub`) -/
+def afterProvider (c p : Int) : Int := c - (c * p).tdiv P
 
 /-- baseapp's per-transaction isolation (TRUSTED, restated): a tx runs on a branch of the state; the branch is written
 back only when the tx succeeds (panics are recovered and count as failure) -/
